@@ -54,6 +54,12 @@ def handle0 : List String → String
 def handle : List String → String
   | "tamper" :: rest => "refused | " ++ handle0 ("dec" :: rest)
   | "tunwrap" :: rest => "refused | " ++ handle0 ("unwrap" :: rest)
+  | op :: rest =>
+    -- `<what C05 demands: these bytes, or a refusal> | <the model's outcome with its error class>`
+    if op == "enc" || op == "dec" || op == "gmac" || op == "wrap" || op == "unwrap" then
+      let r := handle0 (op :: rest)
+      (if r.startsWith "ok " then r else if r.startsWith "err" then "refused" else r) ++ " | " ++ r
+    else handle0 (op :: rest)
   | l => handle0 l
 
 end Run.Security
